@@ -550,6 +550,8 @@ def reshape(self, *newdims, **kwargs):
 
     assert len(newdims_unflattened) == len(set(newdims_unflattened)), "must not contain duplicate axes !"
 
+    # rename copies of the axes: `o` may be `self` or share Axis objects with it
+    o = o._constructor(o.values, o.axes.copy(), **o.attrs)
     for ax in o.axes:
         ax.name = ax.name.replace(',',';')
 
